@@ -1,4 +1,4 @@
-module lowverif/ssa2lean
+module lowverif/ssa2lean3
 
 go 1.22.0
 
